@@ -14,15 +14,16 @@ from engine.loader import AnalysisError, src, walk_own
 
 PID = "C13"
 EXPLANATION = (
-    "Structural analysis of linalg.svd_truncated and its helpers over their ASTs. (1) Every subscript of the form seq[-n] where n "
-    "is a runtime count (count_nonzero, len, a parameter) must be dominated by a test that n is positive, because seq[-0] is the "
-    "FIRST element: an unguarded site turns 'keep nothing' into 'keep everything' (the wrap-around of cumulative cutoffs above the "
-    "total weight). (2) The absorb switch is exhaustive with a raising default; 'left' scales U by s reshaped along U's bond axis "
-    "(1,-1), 'right' scales VH along its bond axis (-1,1), 'both' applies sqrt to both. (3) The per-sector keep counts are computed "
-    "by iterating the singular-value blocks and consumed zipped with U's sectors: both dicts are populated in the same loop of svd, "
-    "and neither side is re-ordered. (4) A sector removed from U is removed from s and VH in the same branch, slices use the same "
-    "count on the bond axis of each factor, and the same new bond charge table is installed on U's second and VH's first index. "
-    "Which values are kept, the error identity and monotonicity in numbers are not decided."
+    "Two analyses of linalg.svd_truncated. (1) R13.1, a dominating-guard analysis over the package ASTs: every subscript of the form "
+    "seq[-n] where n is a runtime count must be dominated by a test that n is positive (conditions are normalised: n > 0, n >= 1, "
+    "n != 0, truthiness, and the else-branch of their negations), because seq[-0] is the FIRST element: an unguarded site turns 'keep "
+    "nothing' into 'keep everything'. (2) R13.2-R13.4, abstract evaluation: svd_truncated is interpreted by the checker's evaluator "
+    "with the block SVD replaced by shaped tokens (U, s, VH blocks of known shapes, sectors produced in several insertion orders with "
+    "unequal sizes), no cutoff and every bond limit from 1 to total+1 and -1, for every absorb option: for every charge the kept count "
+    "must be the same on U's columns, s, VH's rows and both bond charge tables (sorted), removed charges vanish everywhere, the counts "
+    "add up to the limit and stay within each charge's own values whatever the order the sectors were produced in; absorb left / "
+    "right / both scales U along (1,-1), VH along (-1,1), both by sqrt of the kept values of that charge; None returns s; any other "
+    "value raises. Which values are kept under a cutoff, the error identity and monotonicity in numbers are not decided."
 )
 ASSUMPTIONS = ["python dicts preserve insertion order", "sequence[-0] is sequence[0]"]
 
